@@ -392,7 +392,7 @@ func (sp *specParser) postfix() *SpecExpr {
 		case sp.isOp("("):
 			sp.p++
 			args := []*SpecExpr{e}
-			if e.Kind == "ident" && (e.Name == "tagof" || e.Name == "unbox" || e.Name == "maps" || e.Name == "zero") {
+			if e.Kind == "ident" && (e.Name == "tagof" || e.Name == "unbox" || e.Name == "maps" || e.Name == "zero" || e.Name == "fields") {
 				// first argument is a Go type
 				var ty []string
 				depth := 0
